@@ -1,5 +1,5 @@
 #!/usr/bin/env python3
-"""regenerate the seed table at the end of DESIGN.md section 7.6 from seeded/*/meta.json"""
+"""regenerate the seed table at the end of DESIGN.md section 7.7 from seeded/*/meta.json"""
 import json, os, glob
 rows=[]; n=0; missed=[]
 for d in sorted(glob.glob('/verif/seeded/*/')):
